@@ -70,8 +70,19 @@ def case_strategy():
             if src.endswith((".h", ".hpp")):
                 for cmds in c["platforms"].values():
                     for cmd in cmds:
-                        if draw(st.booleans()):
-                            cmd["dirs"] = cmd.get("dirs", []) + [["I", os.path.dirname(tw) or "."], ["I", os.path.dirname(src) or "."]]
+                        if draw(st.integers(0, 3)) != 0:
+                            pair = [["I", os.path.dirname(tw) or "."], ["I", os.path.dirname(src) or "."]]
+                            if draw(st.booleans()):
+                                pair.reverse()  # platforms search the same directories in different orders
+                            cmd["dirs"] = pair + [d for d in cmd.get("dirs", []) if d not in pair]
+                # and a compiled file that includes the twin header by its base name
+                hosts = [n for n in names if not n.endswith((".h", ".hpp")) and n in c["tree"]]
+                if hosts:
+                    h = draw(st.sampled_from(hosts))
+                    c["tree"][h]["items"] = [["include", "angle", os.path.basename(src)]] + c["tree"][h]["items"]
+                    for cmds in c["platforms"].values():
+                        if cmds and draw(st.booleans()):
+                            cmds[0]["file"] = h
         c["schedules"] = draw(st.lists(st.tuples(st.sampled_from([0, 1, 2, 3, "random"]), st.integers(0, 10**6), st.integers(0, 10**6)), min_size=3, max_size=3))
         return c
 
